@@ -1,0 +1,137 @@
+//go:build verif
+
+// Contracts for govc (see /verif/DESIGN.md). Comment-only file: with the
+// build tag off it is not part of the build, with it on it adds no code.
+
+package protoio
+
+//@ # generated size/marshal methods are consistent with proto.Marshal (assumed)
+//@ extern (interface{Size() (n int)}).Size(m) (n)
+//@   ensures n == blen(pmarshal(msgv(m)))
+//@ extern (interface{ProtoSize() (n int)}).ProtoSize(m) (n)
+//@   ensures n == blen(pmarshal(msgv(m)))
+//@ extern (berty.tech/weshnet/v2/pkg/protoio.marshaler).MarshalTo(m, data) (n, err)
+//@   requires len(data) >= blen(pmarshal(msgv(m)))
+//@   modifies bytes(sub(data, 0, blen(pmarshal(msgv(m)))))
+//@   ensures err == nil ==> n == blen(pmarshal(msgv(m))) && bslice(bytes(data), 0, n) == pmarshal(msgv(m))
+
+//@ func getSize
+//@   for C18
+//@   safety
+//@   ensures ret1 ==> ret0 == blen(pmarshal(msgv(v)))
+
+//@ func (*varintWriter).WriteMsg
+//@   for C18
+//@   safety
+//@   requires writer != nil && writer.w != nil && msg != nil
+//@   requires len(writer.lenBuf) >= 10
+//@   ensures [C18.varint.write] err == nil ==> wr(writer.w) ==
+//@      bcat(old(wr(writer.w)), bcat(uvar(blen(pmarshal(msgv(msg)))), pmarshal(msgv(msg))))
+
+//@ func (*varintReader).ReadMsg
+//@   for C18
+//@   safety
+//@   option alloc_limit = reader.maxSize
+//@   requires reader != nil && reader.r != nil && msg != nil
+//@   ensures [C18.varint.read.ok] err == nil ==> uvar_ok(old(rd(reader.r)))
+//@      && uvar_val(old(rd(reader.r))) <= reader.maxSize
+//@      && msgv(msg) == punmarshal(bslice(old(rd(reader.r)), uvar_size(old(rd(reader.r))), uvar_size(old(rd(reader.r))) + uvar_val(old(rd(reader.r)))))
+//@      && rd(reader.r) == bslice(old(rd(reader.r)), uvar_size(old(rd(reader.r))) + uvar_val(old(rd(reader.r))), blen(old(rd(reader.r))))
+//@   ensures [C18.varint.read.complete] uvar_ok(old(rd(reader.r))) && uvar_val(old(rd(reader.r))) <= reader.maxSize
+//@      && uvar_val(old(rd(reader.r))) < 9223372036854775808
+//@      && blen(old(rd(reader.r))) >= uvar_size(old(rd(reader.r))) + uvar_val(old(rd(reader.r)))
+//@      && punmarshal_ok(bslice(old(rd(reader.r)), uvar_size(old(rd(reader.r))), uvar_size(old(rd(reader.r))) + uvar_val(old(rd(reader.r)))))
+//@      ==> err == nil
+//@   ensures [C18.varint.read.limit] uvar_ok(old(rd(reader.r)))
+//@      && (uvar_val(old(rd(reader.r))) > reader.maxSize || uvar_val(old(rd(reader.r))) >= 9223372036854775808)
+//@      ==> err == io.ErrShortBuffer && msgv(msg) == old(msgv(msg))
+//@   ensures [C18.varint.read.malformed] !uvar_ok(old(rd(reader.r))) ==> err != nil && msgv(msg) == old(msgv(msg))
+//@   ensures [C18.varint.read.truncated] uvar_ok(old(rd(reader.r))) && blen(old(rd(reader.r))) < uvar_size(old(rd(reader.r))) + uvar_val(old(rd(reader.r)))
+//@      ==> err != nil && msgv(msg) == old(msgv(msg))
+
+//@ func NewDelimitedWriter
+//@   for C18
+//@   safety
+//@   ensures result != nil && typeis(result, "*berty.tech/weshnet/v2/pkg/protoio.varintWriter")
+//@   ensures as(result, "*varintWriter").w == w && len(as(result, "*varintWriter").lenBuf) >= 10
+
+//@ func NewDelimitedReader
+//@   for C18
+//@   safety
+//@   requires r != nil
+//@   ensures result != nil && as(result, "*varintReader").maxSize == maxSize && as(result, "*varintReader").r != nil
+
+//@ extern bufio.NewReader(r) (b)
+//@   ensures b != nil && fresh(b) && rd(b) == rd(r)
+
+//@ func NewUint32DelimitedWriter
+//@   for C18
+//@   safety
+//@   ensures result != nil && as(result, "*uint32Writer").w == w && as(result, "*uint32Writer").byteOrder == byteOrder
+//@   ensures len(as(result, "*uint32Writer").lenBuf) == 4
+
+//@ func NewUint32DelimitedReader
+//@   for C18
+//@   safety
+//@   ensures result != nil && as(result, "*uint32Reader").r == r && as(result, "*uint32Reader").byteOrder == byteOrder
+//@   ensures as(result, "*uint32Reader").maxSize == maxSize && len(as(result, "*uint32Reader").lenBuf) == 4
+
+//@ func (*uint32Writer).writeFallback
+//@   for C18
+//@   safety
+//@   requires writer != nil && writer.w != nil && msg != nil && writer.byteOrder != nil
+//@   requires len(writer.lenBuf) == 4
+//@   requires blen(pmarshal(msgv(msg))) < 4294967296
+//@   modifies wr(writer.w), bytes(writer.lenBuf)
+//@   ensures [C18.uint32.write.fallback] ret0 == nil ==> wr(writer.w) ==
+//@      bcat(old(wr(writer.w)), bcat(u32bytes(writer.byteOrder, blen(pmarshal(msgv(msg)))), pmarshal(msgv(msg))))
+
+//@ func (*uint32Writer).WriteMsg
+//@   for C18
+//@   safety
+//@   requires writer != nil && writer.w != nil && msg != nil && writer.byteOrder != nil
+//@   requires len(writer.lenBuf) == 4
+//@   requires blen(pmarshal(msgv(msg))) < 4294967296
+//@   ensures [C18.uint32.write] ret0 == nil ==> wr(writer.w) ==
+//@      bcat(old(wr(writer.w)), bcat(u32bytes(writer.byteOrder, blen(pmarshal(msgv(msg)))), pmarshal(msgv(msg))))
+
+//@ func (*uint32Reader).ReadMsg
+//@   for C18
+//@   safety
+//@   option alloc_limit = reader.maxSize
+//@   requires reader != nil && reader.r != nil && msg != nil && reader.byteOrder != nil
+//@   requires len(reader.lenBuf) == 4
+//@   ensures [C18.uint32.read.ok] ret0 == nil ==> blen(old(rd(reader.r))) >= 4
+//@      && u32val(reader.byteOrder, bslice(old(rd(reader.r)), 0, 4)) <= reader.maxSize
+//@      && msgv(msg) == punmarshal(bslice(old(rd(reader.r)), 4, 4 + u32val(reader.byteOrder, bslice(old(rd(reader.r)), 0, 4))))
+//@      && rd(reader.r) == bslice(old(rd(reader.r)), 4 + u32val(reader.byteOrder, bslice(old(rd(reader.r)), 0, 4)), blen(old(rd(reader.r))))
+//@   ensures [C18.uint32.read.complete] blen(old(rd(reader.r))) >= 4
+//@      && u32val(reader.byteOrder, bslice(old(rd(reader.r)), 0, 4)) <= reader.maxSize
+//@      && blen(old(rd(reader.r))) >= 4 + u32val(reader.byteOrder, bslice(old(rd(reader.r)), 0, 4))
+//@      && punmarshal_ok(bslice(old(rd(reader.r)), 4, 4 + u32val(reader.byteOrder, bslice(old(rd(reader.r)), 0, 4))))
+//@      ==> ret0 == nil
+//@   ensures [C18.uint32.read.limit] blen(old(rd(reader.r))) >= 4
+//@      && u32val(reader.byteOrder, bslice(old(rd(reader.r)), 0, 4)) > reader.maxSize
+//@      ==> ret0 == io.ErrShortBuffer && msgv(msg) == old(msgv(msg))
+//@   ensures [C18.uint32.read.truncated] blen(old(rd(reader.r))) < 4 ||
+//@      blen(old(rd(reader.r))) < 4 + u32val(reader.byteOrder, bslice(old(rd(reader.r)), 0, 4))
+//@      ==> ret0 != nil && msgv(msg) == old(msgv(msg))
+
+//@ # The property itself, as lemmas over the reader/writer contracts above: what
+//@ # the reader's postcondition says about a stream the writer produced.
+//@ lemma C18.roundtrip.varint: forall v Bytes, rest Bytes :: blen(pmarshal(v)) < 9223372036854775808 ==>
+//@      uvar_ok(bcat(bcat(uvar(blen(pmarshal(v))), pmarshal(v)), rest))
+//@   && uvar_val(bcat(bcat(uvar(blen(pmarshal(v))), pmarshal(v)), rest)) == blen(pmarshal(v))
+//@   && punmarshal(bslice(bcat(bcat(uvar(blen(pmarshal(v))), pmarshal(v)), rest),
+//@        uvar_size(bcat(bcat(uvar(blen(pmarshal(v))), pmarshal(v)), rest)),
+//@        uvar_size(bcat(bcat(uvar(blen(pmarshal(v))), pmarshal(v)), rest)) + blen(pmarshal(v)))) == v
+//@   && bslice(bcat(bcat(uvar(blen(pmarshal(v))), pmarshal(v)), rest),
+//@        uvar_size(bcat(bcat(uvar(blen(pmarshal(v))), pmarshal(v)), rest)) + blen(pmarshal(v)),
+//@        blen(bcat(bcat(uvar(blen(pmarshal(v))), pmarshal(v)), rest))) == rest
+//@   for C18
+//@ lemma C18.roundtrip.uint32: forall o Ref, v Bytes, rest Bytes :: blen(pmarshal(v)) < 4294967296 ==>
+//@      u32val(o, bslice(bcat(bcat(u32bytes(o, blen(pmarshal(v))), pmarshal(v)), rest), 0, 4)) == blen(pmarshal(v))
+//@   && punmarshal(bslice(bcat(bcat(u32bytes(o, blen(pmarshal(v))), pmarshal(v)), rest), 4, 4 + blen(pmarshal(v)))) == v
+//@   && bslice(bcat(bcat(u32bytes(o, blen(pmarshal(v))), pmarshal(v)), rest), 4 + blen(pmarshal(v)),
+//@        blen(bcat(bcat(u32bytes(o, blen(pmarshal(v))), pmarshal(v)), rest))) == rest
+//@   for C18
